@@ -210,4 +210,11 @@ FINDINGS = [
               'SEQUENCE(T4) with tag 30, but got 80" (before the repair of the shared placeholder of recursive types the same value decoded '
               'to another value); witness text and value in findings/data/ber-retagged-reference-to-recursive-explicit-type.json',
          witness=dict(kind='custom', name='ber_retagged_reference_to_recursive_explicit_type')),
+    dict(key='implicit-tag-over-tagged-reference-to-choice-made-explicit', props=['C03'],
+         text='a tag that is IMPLICIT by the module default or by AUTOMATIC TAGS on a reference to a *tagged* type whose base is a CHOICE '
+              '(T2 ::= [APPLICATION 11] T0, T0 ::= CHOICE { flag NULL }) is applied as an EXPLICIT tag: SEQUENCE { n T2 } (AUTOMATIC TAGS) value '
+              '{n flag:NULL} gives 30 06 a0 04 6b 02 80 00; X.680 31.2.7 makes a tag explicit only over an untagged CHOICE, so [0] replaces '
+              '[APPLICATION 11]: 30 04 a0 02 80 00 (which the library itself produces for n [0] IMPLICIT T2)',
+         witness=dict(kind='encode_expect', spec=HDR + 'T0 ::= CHOICE { flag NULL } T2 ::= [APPLICATION 11] T0 A ::= SEQUENCE { n T2 }' + END, codec='der',
+                      type='A', value={'n': T(['flag', None])}, expected_hex='3004a0028000')),
 ]
